@@ -502,4 +502,235 @@ Proof.
   exact (walk_loop_P _ _ _ _ Hw Ew).
 Qed.
 
+(* ---- formatter --------------------------------------------------------------------------- *)
+Lemma cons_ascii c l : c < 128 -> Forall P l -> Forall P (c :: l).
+Proof. intros Hc Hl. constructor; [apply P_ascii, Hc|exact Hl]. Qed.
+
+Lemma escape_string_P l : Forall P l -> Forall P (escape_string l).
+Proof.
+  induction l as [|c r IH]; intros H; [constructor|]. inversion H as [|x y Hc Hr]; subst.
+  cbn [escape_string]. destruct (N.eqb c 92 || N.eqb c 34 || N.eqb c 10)%bool.
+  - apply cons_ascii; [lia|]. constructor; [exact Hc|exact (IH Hr)].
+  - constructor; [exact Hc|exact (IH Hr)].
+Qed.
+
+Lemma double_slash_P l : Forall P l -> Forall P (double_slash l).
+Proof.
+  induction l as [|c r IH]; intros H; [constructor|]. inversion H as [|x y Hc Hr]; subst.
+  cbn [double_slash]. destruct (N.eqb c 47).
+  - apply cons_ascii; [lia|]. apply cons_ascii; [lia|]. exact (IH Hr).
+  - constructor; [exact Hc|exact (IH Hr)].
+Qed.
+
+Lemma token_source_P t : tokP t -> Forall P (token_source t).
+Proof.
+  unfold tokP, token_source. intros H. destruct (ty t); try exact H.
+  - apply cons_ascii; [lia|]. apply Forall_app. split; [apply escape_string_P, H|]. apply cons_ascii; [lia|constructor].
+  - apply cons_ascii; [lia|]. apply Forall_app. split; [apply double_slash_P, H|]. apply cons_ascii; [lia|constructor].
+  - apply cons_ascii; [lia|]. apply cons_ascii; [lia|]. exact H.
+  - apply cons_ascii; [lia|]. apply cons_ascii; [lia|]. apply Forall_app. split; [exact H|].
+    apply cons_ascii; [lia|]. apply cons_ascii; [lia|constructor].
+  - apply cons_ascii; [lia|]. apply cons_ascii; [lia|]. exact H.
+Qed.
+
+Lemma sp_P : Forall P sp.
+Proof. unfold sp. apply cons_ascii; [lia|constructor]. Qed.
+
+Lemma reference_text_P r : refP r -> Forall P (reference_text r).
+Proof.
+  intros H. unfold reference_text. apply join_with_P; [lia|]. apply Forall_map.
+  apply (Forall_impl _ token_source_P H).
+Qed.
+
+Lemma value_ind_P (Q : value -> Prop) :
+  (forall t s e, Q (VTok t s e)) -> (forall vs s e, Forall Q vs -> Q (VArr vs s e)) -> forall v, Q v.
+Proof.
+  intros H1 H2. fix F 1. intros [t s e|vs s e]; [apply H1|]. apply H2.
+  induction vs as [|x r IH]; constructor; [apply F|exact IH].
+Qed.
+
+Lemma value_text_P : forall v, valP v -> Forall P (value_text v).
+Proof.
+  apply (value_ind_P (fun v => valP v -> Forall P (value_text v))).
+  - intros t s e H. inversion H; subst. cbn [value_text]. apply token_source_P. assumption.
+  - intros vs s e IH H. inversion H as [|vs0 s0 e0 Hvs]; subst. cbn [value_text].
+    apply cons_ascii; [lia|]. apply Forall_app. split; [|apply cons_ascii; [lia|constructor]].
+    clear H. generalize true. induction vs as [|x r IHr]; intros b; [constructor|].
+    inversion IH as [|? ? Hx Hr]; subst. inversion Hvs as [|? ? Hvx Hvr]; subst.
+    apply Forall_app. split.
+    { destruct b; [constructor|]. apply cons_ascii; [lia|]. apply cons_ascii; [lia|constructor]. }
+    apply Forall_app. split; [exact (Hx Hvx)|apply IHr; assumption].
+Qed.
+
+Lemma tag_text_P t : tagP t -> Forall P (tag_text t).
+Proof.
+  intros [Hm Hb]. unfold tag_text. apply Forall_app. split.
+  - destruct (tmark t); [constructor| |];
+      (destruct (tmark_tok t) as [mt|]; [apply Forall_app; split; [apply token_source_P, Hm; reflexivity|exact sp_P]|exact sp_P]).
+  - destruct (tbody t) as [r|v]; [apply reference_text_P, Hb|].
+    destruct v as [tok s e|vs s e]; [|constructor]. inversion Hb; subst. apply token_source_P. assumption.
+Qed.
+
+Lemma inline_comment_P c : commentP c -> Forall P (inline_comment c).
+Proof.
+  destruct c as [c|]; cbn; intros H; [|constructor].
+  apply cons_ascii; [lia|]. apply cons_ascii; [lia|]. apply cons_ascii; [lia|]. exact H.
+Qed.
+
+Lemma tabs_P n : Forall P (tabs n).
+Proof. unfold tabs. induction n as [|n IH]; cbn [repeat]; [constructor|]. apply cons_ascii; [lia|exact IH]. Qed.
+
+Lemma flat_map_P {A} (Q : A -> Prop) (f : A -> list N) l :
+  (forall x, Q x -> Forall P (f x)) -> Forall Q l -> Forall P (flat_map f l).
+Proof.
+  intros Hf. induction l as [|x r IH]; intros H; [constructor|]. inversion H as [|y z Hx Hr]; subst.
+  cbn [flat_map]. apply Forall_app. split; [exact (Hf _ Hx)|exact (IH Hr)].
+Qed.
+
+Lemma header_text_P h : headerP h -> Forall P (header_text h).
+Proof.
+  intros (Hr & Ht & Hq & Hd & _). unfold header_text.
+  apply Forall_app. split; [apply reference_text_P, Hr|].
+  apply Forall_app. split.
+  { apply (flat_map_P tagP); [|exact Ht]. intros t Htg. apply Forall_app. split; [exact sp_P|apply tag_text_P, Htg]. }
+  apply Forall_app. split.
+  { apply (flat_map_P tagP); [|exact Hq]. intros t Htg. apply cons_ascii; [lia|apply tag_text_P, Htg]. }
+  apply Forall_app. split.
+  { destruct (hopen h); [|constructor]. apply cons_ascii; [lia|]. apply cons_ascii; [lia|constructor]. }
+  destruct (hdesc h) as [d|]; [|constructor]. destruct Hd as [Hdt _].
+  apply Forall_app. split; [exact sp_P|]. apply (flat_map_P tokP); [exact token_source_P|exact Hdt].
+Qed.
+
+Lemma assign_text_P a : assignP a -> Forall P (assign_text a).
+Proof.
+  intros (Hk & Hv & _). unfold assign_text.
+  apply Forall_app. split; [apply reference_text_P, Hk|].
+  apply Forall_app. split; [|apply value_text_P, Hv].
+  destruct (aappend a); repeat (apply cons_ascii; [lia|]); constructor.
+Qed.
+
+Definition fdiff_P (d : fdiff) : Prop := Forall P (fd_text d).
+
+Lemma single_line_P n s e c parts : Forall P parts -> commentP c -> fdiff_P (single_line n s e c parts).
+Proof.
+  intros Hp Hc. unfold fdiff_P, single_line. cbn [fd_text].
+  apply Forall_app. split; [apply tabs_P|]. apply Forall_app. split; [exact Hp|].
+  apply Forall_app. split; [apply inline_comment_P, Hc|]. apply cons_ascii; [lia|constructor].
+Qed.
+
+(* description.go *)
+Lemma fields_loop_P : forall l cur, Forall P l -> Forall P cur -> Forall (Forall P) (fields_loop l cur).
+Proof.
+  induction l as [|c r IH]; intros cur Hl Hc; cbn [fields_loop].
+  - destruct cur; [constructor|]. constructor; [exact Hc|constructor].
+  - inversion Hl as [|x y Hx Hr]; subst. destruct (is_space c).
+    + destruct cur; [apply IH; [exact Hr|constructor]|]. constructor; [exact Hc|]. apply IH; [exact Hr|constructor].
+    + apply IH; [exact Hr|]. apply app1_P; assumption.
+Qed.
+
+Lemma flow_words_P maxw : forall ws pend out p o, Forall (Forall P) ws -> Forall P pend -> Forall (Forall P) out ->
+  flow_words maxw ws pend out = (p, o) -> Forall P p /\ Forall (Forall P) o.
+Proof.
+  induction ws as [|w r IH]; intros pend out p o Hws Hp Ho; cbn [flow_words].
+  - intros [= <- <-]. split; assumption.
+  - inversion Hws as [|x y Hw Hr]; subst. destruct pend as [|p0 pr].
+    + apply IH; assumption.
+    + destruct (Z.ltb maxw (Z.of_N (utf8_len (p0 :: pr)) + Z.of_N (utf8_len w))).
+      * apply IH; [exact Hr|exact Hw|]. apply Forall_app. split; [exact Ho|constructor; [exact Hp|constructor]].
+      * apply IH; [exact Hr| |exact Ho]. apply Forall_app. split; [exact Hp|]. apply cons_ascii; [lia|exact Hw].
+Qed.
+
+Lemma split_on_P sep : forall s, Forall P s -> Forall (Forall P) (split_on sep s).
+Proof.
+  induction s as [|c r IH]; intros H; cbn [split_on]; [constructor; constructor|].
+  inversion H as [|x y Hc Hr]; subst. specialize (IH Hr). destruct (N.eqb c sep).
+  - constructor; [constructor|exact IH].
+  - destruct (split_on sep r) as [|l ls].
+    + constructor; [constructor; [exact Hc|constructor]|constructor].
+    + inversion IH as [|x y Hl Hls]; subst. constructor; [constructor; [exact Hc|exact Hl]|exact Hls].
+Qed.
+
+Lemma reformat_loop_P maxw : forall lines pend le out, Forall (Forall P) lines -> Forall P pend ->
+  Forall (Forall P) out -> Forall (Forall P) (reformat_loop maxw lines pend le out).
+Proof.
+  induction lines as [|line r IH]; intros pend le out Hl Hp Ho; cbn [reformat_loop].
+  - destruct pend; [exact Ho|]. apply Forall_app. split; [exact Ho|constructor; [exact Hp|constructor]].
+  - inversion Hl as [|x y Hline Hr]; subst.
+    destruct (all_space line).
+    + apply IH; [exact Hr|constructor|].
+      assert (H1 : Forall (Forall P) (match pend with [] => out | _ :: _ => out ++ [pend] end)).
+      { destruct pend; [exact Ho|]. apply Forall_app. split; [exact Ho|constructor; [exact Hp|constructor]]. }
+      destruct le; [exact H1|]. apply Forall_app. split; [exact H1|constructor; constructor].
+    + destruct (flow_words maxw (fields line) pend out) as [pend' out'] eqn:Ef.
+      destruct (flow_words_P maxw _ _ _ _ _ (fields_loop_P _ _ Hline (Forall_nil _)) Hp Ho Ef) as [Hp' Ho'].
+      apply IH; assumption.
+Qed.
+
+Lemma drop_while_P {A} (Q : A -> Prop) (p : A -> bool) l : Forall Q l -> Forall Q (drop_while p l).
+Proof.
+  induction l as [|x r IH]; intros H; [constructor|]. cbn [drop_while].
+  destruct (p x); [|exact H]. inversion H; subst. apply IH. assumption.
+Qed.
+
+Lemma trim_right_P (p : N -> bool) l : Forall P l -> Forall P (trim_right p l).
+Proof. intros H. unfold trim_right. apply Forall_rev, drop_while_P, Forall_rev, H. Qed.
+
+Lemma multi_line_P n s e lines : Forall (Forall P) lines -> fdiff_P (multi_line n s e lines).
+Proof.
+  intros H. unfold fdiff_P, multi_line. cbn [fd_text].
+  apply Forall_app. split; [|apply cons_ascii; [lia|constructor]].
+  apply join_with_P; [lia|]. apply Forall_map. apply (Forall_impl _ (P:=Forall P)); [|exact H].
+  intros l Hl. apply trim_right_P. apply Forall_app. split; [|exact Hl].
+  apply Forall_app. split; [apply tabs_P|]. apply cons_ascii; [lia|]. apply cons_ascii; [lia|constructor].
+Qed.
+
+Lemma description_diff_P n d : descP d -> fdiff_P (description_diff n d).
+Proof.
+  intros [_ Hv]. unfold description_diff. apply multi_line_P.
+  assert (H : Forall (Forall P) (reformat_description (dvalue d) (80 - Z.of_nat n * 4))).
+  { unfold reformat_description. apply reformat_loop_P; [apply split_on_P, Hv|constructor|constructor]. }
+  destruct (reformat_description (dvalue d) (80 - Z.of_nat n * 4)); [constructor; constructor|exact H].
+Qed.
+
+Lemma diff_file_P : forall fs n, Forall frag_P fs -> Forall fdiff_P (diff_file fs n).
+Proof.
+  induction fs as [|f r IH]; intros n H; [constructor|]. inversion H as [|x y Hf Hr]; subst.
+  cbn [diff_file]. destruct f as [h|a|d|t|t]; cbn [frag_P] in Hf; (constructor; [|apply IH, Hr]).
+  - apply single_line_P; [apply header_text_P, Hf|apply Hf].
+  - apply single_line_P; [apply assign_text_P, Hf|apply Hf].
+  - apply description_diff_P, Hf.
+  - apply single_line_P; [apply token_source_P, Hf|exact I].
+  - apply single_line_P; [apply token_source_P, Hf|exact I].
+Qed.
+
+Lemma fmt_join_P : forall ds first last_end, Forall fdiff_P ds -> Forall P (fmt_join ds first last_end).
+Proof.
+  induction ds as [|d r IH]; intros first le H; [constructor|]. inversion H as [|x y Hd Hr]; subst.
+  cbn [fmt_join]. apply Forall_app. split.
+  { destruct (negb first && Z.ltb le (fd_from d))%bool; [apply cons_ascii; [lia|constructor]|constructor]. }
+  apply Forall_app. split; [exact Hd|apply IH, Hr].
+Qed.
+
+(* Fmt only writes runes of its input and ASCII *)
+Theorem fmt_runes_closed : forall data out, Forall P data -> fmt_runes data = Ok out -> Forall P out.
+Proof.
+  intros data out Hd. unfold fmt_runes, collect_fmt.
+  destruct (collect_fragments data) as [fs|e|p|] eqn:Ec; cbn [omap]; try discriminate.
+  intros [= <-]. apply fmt_join_P, diff_file_P. exact (collect_fragments_P _ _ Ec Hd).
+Qed.
+
 End Closed.
+
+(* ---- instance: valid runes ------------------------------------------------------------------ *)
+Theorem fmt_runes_valid : forall input out, fmt_runes (utf8_decode input) = Ok out ->
+  Forall (fun c => valid_rune c = true) out.
+Proof.
+  intros input out E.
+  apply (fmt_runes_closed (fun c => valid_rune c = true) valid_rune_ascii (utf8_decode input) out); [|exact E].
+  apply decode_valid.
+Qed.
+
+(* string(Fmt-output) read back as runes is the output *)
+Theorem fmt_bytes_decode : forall input out, fmt_runes (utf8_decode input) = Ok out ->
+  utf8_decode (utf8_encode out) = out.
+Proof. intros input out E. apply decode_encode. exact (fmt_runes_valid input out E). Qed.
